@@ -6,7 +6,7 @@ Meant to be merged into tools/props/c07.py the way c01.py merges c01rank.py:
     LEAN_MODULES += gs.LEAN_MODULES; THEOREMS += gs.THEOREMS; CXX_TARGETS += gs.CXX_TARGETS."""
 import os
 import re
-from vlib import Case, Stream, BUILD, model_cmd
+from vlib import Case, Stream, BUILD, VERIF, model_cmd
 
 ID = "C07GS"
 LEAN_MODULES = ["HgVerif.Props.C07GState"]
@@ -437,10 +437,21 @@ def exhaustive(start):
     return cases
 
 
+def corpus():
+    """corpus/C07/gstate_*.txt: shrunk failing inputs of the seeded defect s18 and of the mutation tests"""
+    cdir = os.path.join(VERIF, "corpus", "C07")
+    out = []
+    if os.path.isdir(cdir):
+        for f in sorted(os.listdir(cdir)):
+            if f.startswith("gstate_") and f.endswith(".txt"):
+                out.append(Case([l.rstrip("\n") for l in open(os.path.join(cdir, f)) if l.strip()], {}))
+    return out
+
+
 def streams(rng, tier, seed):
     n = 350 if tier == "quick" else 9000
     hist = [gen_history(rng, i) for i in range(n)]
-    dire = directed(rng, 100000)
+    dire = corpus() + directed(rng, 100000)
     if tier != "quick":
         dire += exhaustive(200000)
     mc = model_cmd("C07GS")
